@@ -56,6 +56,7 @@ def run(p: Program, rep: Report, tier: str) -> None:
     KEY = ("param", "key")
     expect_methods = ["__setitem__", "__delitem__", "setlist", "poplist", "append"]
     setitem_pair_paths: List[Path] = []
+    setitem_rebuilds: List[str] = []
     for name, m in sorted(mmm.methods.items()):
         if default_inline(m):
             continue  # a private helper is analysed as part of the public mutators that call it
@@ -98,8 +99,13 @@ def run(p: Program, rep: Report, tier: str) -> None:
                     ok = False
                     rep.violation("R17.1", construct(m, text="_dict value"), where(m), "__setitem__ does not store exactly the new value in _dict")
                 pair = ("tuple", (KEY, ("param", "value")))
+                rebuilt = [e for e in le if e.kind == "store" and (e.a == L or (e.a[0] == "sub" and e.a[1] == L and e.a[2][0] == "slice"))]
                 if any((e.kind == "store" and e.b == pair) or (e.kind == "call" and e.b and e.b[0] == pair) for e in le):
                     setitem_pair_paths.append(pa)
+                elif rebuilt:
+                    # the whole pair list is replaced by a list built in a loop of its own: where the new pair lands in it is a property
+                    # of that loop's values, which the path events do not carry
+                    setitem_rebuilds.append(show(rebuilt[0].b)[:50])
                 elif any(e.kind == "store" or (e.kind == "call" and e.a[2] in ("append", "insert", "extend")) for e in le):
                     ok = False
                     rep.violation("R17.1", construct(m, text="_list pair"), where(m), "__setitem__ puts something other than the pair (key, value) into _list")
@@ -141,6 +147,9 @@ def run(p: Program, rep: Report, tier: str) -> None:
                 kinds.add("append-new")
     if kinds == {"replace-in-place", "append-new"}:
         rep.ok("R17.1", "__setitem__: an existing key is replaced in place (other duplicates deleted), a new key is appended")
+    elif setitem_rebuilds:
+        rep.undecide("R17.1", f"__setitem__ replaces the whole pair list by a list built in a loop of its own ({setitem_rebuilds[0]}): where the new pair lands (first occurrence replaced, "
+                     "later ones dropped, a new key appended) is not read off that loop")
     else:
         rep.violation("R17.1", construct(mmm.methods["__setitem__"], text=f"pair placement {sorted(kinds)}"), where(mmm.methods["__setitem__"]),
                       "__setitem__ does not both replace the pair of an existing key in place and append the pair of a new key")
